@@ -95,11 +95,14 @@ theorem GePrecomp.maybe_set_src_eq_model (s o : GePrecomp) (c : CT.Choice) :
     conditional negation; every table row `pos` (also out of range: both panic), every `i8` value `b` (outside −8..8: the
     `debug_assert!`) -/
 theorem GePrecomp.select_src_eq_model (pos : Nat) (b : Int) : GePrecomp.select_src pos b = GePrecomp.select pos b := by
+  -- the generated guard carries the `debug_assert!` marker (`Glue.debugAssert`, not definitionally its argument): it is removed
+  -- by `select_src_unmarked`, whose proof fails when the source says `assert!` instead (audit 3, F3)
   by_cases h : -8 ≤ b ∧ b ≤ 8
   · exact GePrecomp.select_in pos b h
   · have h1 : ¬ (b ≥ (-8 : Int) ∧ b ≤ (8 : Int)) := h
     have h2 : b < -8 ∨ b > 8 := by omega
-    simp only [GePrecomp.select_src, GePrecomp.select, h1, h2, if_false, if_true]
+    rw [GePrecomp.select_src_unmarked]
+    simp only [GePrecomp.select, h1, h2, if_false, if_true]
 
 /-! ## (c) ge.rs — the loops -/
 
